@@ -3,7 +3,8 @@
    weights with positive total, all admissible parameters. *)
 From Coq Require Import Reals List Lra.
 From ADV Require Import Base.Num C16.Model C16.ModelHmm C16.Spec C16.ProofsMax C16.ProofsEM C16.ProofsModel
-  C16.ProofsBW C16.ProofsBW2 C16.ProofsBW3 C16.ProofsClamp C16.ModelVec C16.ProofsVec C16.ProofsDet.
+  C16.ProofsBW C16.ProofsBW2 C16.ProofsBW3 C16.ProofsClamp C16.ModelVec C16.ProofsVec C16.ProofsDet
+  C16.ModelNest C16.ProofsNest.
 Import ListNotations.
 Open Scope R_scope.
 
@@ -405,3 +406,150 @@ Proof.
   pose proof (Rle_0_sqr a) as Ha. pose proof (Rle_0_sqr b) as Hb. unfold Rsqr in Ha, Hb.
   destruct H as [H|H]; apply Rsqr_pos_lt in H; unfold Rsqr in H; lra.
 Qed.
+
+(* ------------------------------------------------------------------------------------------------------------ *)
+(* Round 5: NESTED EM estimators and SUMMARISED data (ModelNest.v).                                               *)
+
+(* (5.a) the summary of NewMixtureSummarizedDataSet (model [summ_idx]: unique values in first-occurrence order, index map
+   observation -> unique value), for every element type with a sound key equality and every data set: every observation IS
+   the unique value its index points to *)
+Theorem summary_index_is_sound : forall (X : Type) (eqbX : X -> X -> bool),
+  (forall a b, eqbX a b = true -> a = b) ->
+  forall (xs : list X) (d : X),
+  length (summ_index eqbX xs) = length xs /\
+  forall l, (l < length xs)%nat ->
+    (nth l (summ_index eqbX xs) O < length (summ_values eqbX xs))%nat /\
+    nth (nth l (summ_index eqbX xs) O) (summ_values eqbX xs) d = nth l xs d.
+Proof. intros X eqbX H. exact (summary_is_sound eqbX H). Qed.
+
+(* (5.b) index conventions: w l = weight of OBSERVATION l < n; [aggR n idx w u] = sum of the weights of the occurrences of
+   UNIQUE value u < m (the count when all weights are 1).  A sum over observations of a quantity that depends on the
+   observation only through its value is the sum over unique values with aggregated weights. *)
+Theorem sum_over_observations_regroups_by_unique_value : forall n m idx (w F : nat -> R),
+  (forall l, (l < n)%nat -> (idx l < m)%nat) ->
+  rsum n (fun l => w l * F (idx l)) = rsum m (fun u => aggR n idx w u * F u).
+Proof. exact regroup. Qed.
+Theorem aggregated_unit_weights_are_the_counts : forall n idx u,
+  aggR n idx (fun _ => 1) u = INR (count_occ Nat.eq_dec (map idx (seq 0 n)) u).
+Proof. exact aggR_ones_is_count. Qed.
+
+(* (5.c) the summarised E-/M-step equals the unsummarised one, for every data set, summary (idx, v), K, weights pi,
+   component densities phi (functions of the VALUE), per-observation outer weights w: every responsibility-weighted
+   statistic (T = 1: responsibility sums; T = x, x^2, category indicators: the sufficient statistics of the Poisson /
+   normal / categorical M-steps), the new mixture weights, the log-likelihood EmStep reports and the component
+   log-likelihoods the leaf M-steps maximise *)
+Theorem summarised_step_statistics_equal_unsummarised : forall (X : Type) n m (x v : nat -> X) idx,
+  (forall l, (l < n)%nat -> (idx l < m)%nat) -> (forall l, (l < n)%nat -> x l = v (idx l)) ->
+  forall K pi (phi : nat -> X -> R) w k (T : X -> R),
+  rsum n (fun l => resp K w pi (fun k l => phi k (x l)) k l * T (x l))
+  = rsum m (fun u => resp K (aggR n idx w) pi (fun k u => phi k (v u)) k u * T (v u)).
+Proof. exact @stat_summ. Qed.
+Theorem summarised_weight_update_equals_unsummarised : forall (X : Type) n m (x v : nat -> X) idx,
+  (forall l, (l < n)%nat -> (idx l < m)%nat) -> (forall l, (l < n)%nat -> x l = v (idx l)) ->
+  forall K pi (phi : nat -> X -> R) w k,
+  new_pi n K w pi (fun k l => phi k (x l)) k = new_pi m K (aggR n idx w) pi (fun k u => phi k (v u)) k.
+Proof. exact @new_pi_summ. Qed.
+Theorem summarised_loglikelihood_equals_unsummarised : forall (X : Type) n m (x v : nat -> X) idx,
+  (forall l, (l < n)%nat -> (idx l < m)%nat) -> (forall l, (l < n)%nat -> x l = v (idx l)) ->
+  forall K pi (phi : nat -> X -> R) w,
+  loglik n K w pi (fun k l => phi k (x l)) = loglik m K (aggR n idx w) pi (fun k u => phi k (v u)).
+Proof. exact @loglik_summ. Qed.
+Theorem summarised_component_loglikelihood_equals_unsummarised : forall (X : Type) n m (x v : nat -> X) idx,
+  (forall l, (l < n)%nat -> (idx l < m)%nat) -> (forall l, (l < n)%nat -> x l = v (idx l)) ->
+  forall K pi (phi : nat -> X -> R) w k (psi : X -> R),
+  comp_ll n (resp K w pi (fun k l => phi k (x l)) k) (fun l => psi (x l))
+  = comp_ll m (resp K (aggR n idx w) pi (fun k u => phi k (v u)) k) (fun u => psi (v u)).
+Proof. exact @comp_ll_summ. Qed.
+
+(* (5.d) NESTED on summarised data: the weights a summarised outer E-step hands to the estimator of component k (indexed
+   by unique value, log counts included) ARE the aggregated per-observation responsibilities; hence every statistic of
+   the inner E-step (inner mixture: Kin leaves, weights pin, leaf densities phin) on the summary equals the one computed
+   observation by observation: the nested summarised trajectory is the reference trajectory *)
+Theorem nested_weights_on_summarised_data_are_aggregated : forall (X : Type) n m (x v : nat -> X) idx,
+  (forall l, (l < n)%nat -> x l = v (idx l)) ->
+  forall K pi (phi : nat -> X -> R) w k u, (u < m)%nat ->
+  resp K (aggR n idx w) pi (fun k u => phi k (v u)) k u = aggR n idx (resp K w pi (fun k l => phi k (x l)) k) u.
+Proof. exact @nested_weights_are_aggregated. Qed.
+Theorem nested_inner_statistics_on_summarised_data_equal_unsummarised : forall (X : Type) n m (x v : nat -> X) idx,
+  (forall l, (l < n)%nat -> (idx l < m)%nat) -> (forall l, (l < n)%nat -> x l = v (idx l)) ->
+  forall K pi (phi : nat -> X -> R) w Kin pin (phin : nat -> X -> R) k j (T : X -> R),
+  rsum n (fun l => resp Kin (resp K w pi (fun k l => phi k (x l)) k) pin (fun j l => phin j (x l)) j l * T (x l))
+  = rsum m (fun u => resp Kin (resp K (aggR n idx w) pi (fun k u => phi k (v u)) k) pin (fun j u => phin j (v u)) j u * T (v u)).
+Proof. exact @nested_stat_summ. Qed.
+
+(* (5.e) what the guard excludes.  An estimator in nested position that summarises its input AGAIN would read the outer
+   weights (indexed like its input) at its own unique-value index: [misindexed] = w u * count u.  That is not the aggregated
+   weight: observations a, a, b with outer weights 1, 0, 1 have aggregated weights 1, 1 and mis-indexed weights 2, 0. *)
+Theorem misindexed_weights_are_not_the_aggregated_weights :
+  let idx := fun l => match l with 2%nat => 1%nat | _ => 0%nat end in
+  let w := fun l => match l with 1%nat => 0 | _ => 1 end in
+  let cnt := aggR 3 idx (fun _ => 1) in
+  aggR 3 idx w 0 = 1 /\ aggR 3 idx w 1 = 1 /\ misindexed NumR cnt w 0 = 2 /\ misindexed NumR cnt w 1 = 0.
+Proof. exact misindexed_refuted. Qed.
+(* the guard of MixtureEstimator.Estimate (model [refuses]): a summarised mixture in nested position is refused whatever its
+   components are; a configuration that is not refused has no summarised mixture below the root (recursively: apply the
+   second theorem to the components); the reference configuration (every summary erased) is never refused *)
+Theorem nested_summarised_mixture_is_refused : forall cs, refuses true (NMix true cs) = true.
+Proof. exact refuses_summarised_nested. Qed.
+Theorem unrefused_mixture_is_plain_if_nested_and_has_unrefused_components : forall nested s cs,
+  refuses nested (NMix s cs) = false ->
+  (s && nested = false)%bool /\ forall e, In e cs -> refuses true e = false.
+Proof. exact refuses_mix_inv. Qed.
+Theorem reference_configuration_is_never_refused : forall e nested, refuses nested (plain e) = false.
+Proof. exact plain_never_refuses. Qed.
+
+(* (5.f) NESTED EM ascent, mixture of mixtures: n data with outer weights c, K outer components, component k a mixture of
+   Kin k leaves.  One outer step = outer weights by normalised responsibility sums, and for every component ONE inner EM
+   step with the outer responsibilities as weights (inner weights by normalised inner responsibility sums, leaves by exact
+   M-steps with the INNER responsibilities as weights: theorems (1)).  Never decreases the log-likelihood, for every n, K,
+   Kin, zeros allowed wherever the code allows them (every inner mixture must have positive density on every datum,
+   otherwise its EvaluateLogPdf returns an error).  With (5.c)/(5.d) the same holds for the run on summarised data. *)
+Theorem nested_em_step_never_decreases_likelihood : forall n K (c pi pi' : nat -> R) (Kin : nat -> nat)
+    (pin pin' : nat -> nat -> R) (fin fin' : nat -> nat -> nat -> R),
+  let f := fun k l => mix (Kin k) (pin k) (fin k) l in
+  let f' := fun k l => mix (Kin k) (pin' k) (fin' k) l in
+  let r := resp K c pi f in
+  (forall l, (l < n)%nat -> 0 <= c l) ->
+  (forall k, (k < K)%nat -> 0 <= pi k) -> rsum K pi <= 1 ->
+  (forall k j, (k < K)%nat -> (j < Kin k)%nat -> 0 <= pin k j) ->
+  (forall k, (k < K)%nat -> rsum (Kin k) (pin k) <= 1) ->
+  (forall k j l, (k < K)%nat -> (j < Kin k)%nat -> (l < n)%nat -> 0 <= fin k j l) ->
+  (forall k j l, (k < K)%nat -> (j < Kin k)%nat -> (l < n)%nat -> 0 <= fin' k j l) ->
+  (forall k l, (k < K)%nat -> (l < n)%nat -> 0 < f k l) ->
+  (forall l, (l < n)%nat -> 0 < mix K pi f l) ->
+  0 < rsum K (resp_sum n K c pi f) ->
+  (forall k, (k < K)%nat -> 0 < rsum (Kin k) (resp_sum n (Kin k) (r k) (pin k) (fin k))) ->
+  (forall k, (k < K)%nat -> pi' k = new_pi n K c pi f k) ->
+  (forall k j, (k < K)%nat -> (j < Kin k)%nat -> pin' k j = new_pi n (Kin k) (r k) (pin k) (fin k) j) ->
+  (forall k j l, (k < K)%nat -> (j < Kin k)%nat -> (l < n)%nat ->
+     0 < resp (Kin k) (r k) (pin k) (fin k) j l -> 0 < fin' k j l) ->
+  (forall k j, (k < K)%nat -> (j < Kin k)%nat ->
+     comp_ll n (resp (Kin k) (r k) (pin k) (fin k) j) (fin k j)
+     <= comp_ll n (resp (Kin k) (r k) (pin k) (fin k) j) (fin' k j)) ->
+  loglik n K c pi f <= loglik n K c pi' f'.
+Proof. exact nested_em_ascent. Qed.
+
+(* ... and the inner step on its own is what an HMM needs from a mixture used as emission estimator: with ANY non-negative
+   weights g (the Baum-Welch gamma of the emission class) one inner EM step does not decrease the g-weighted log-likelihood
+   of the emission, which is the emission hypothesis of baum_welch_step_never_decreases_likelihood (this is
+   em_step_never_decreases_likelihood read with c := g; the composition over the two-level index (sequence, position) of
+   the Baum-Welch theorem is not carried out in Coq: nested_hmm_ascent is _partial in that sense) *)
+Theorem nested_hmm_emission_step_partial : forall n Kin (g pin pin' : nat -> R) (fin fin' : nat -> nat -> R),
+  (forall l, (l < n)%nat -> 0 <= g l) ->
+  (forall j, (j < Kin)%nat -> 0 <= pin j) -> rsum Kin pin <= 1 ->
+  (forall j l, (j < Kin)%nat -> (l < n)%nat -> 0 <= fin j l) ->
+  (forall j l, (j < Kin)%nat -> (l < n)%nat -> 0 <= fin' j l) ->
+  (forall l, (l < n)%nat -> 0 < mix Kin pin fin l) ->
+  0 < rsum Kin (resp_sum n Kin g pin fin) ->
+  (forall j, (j < Kin)%nat -> pin' j = new_pi n Kin g pin fin j) ->
+  (forall j l, (j < Kin)%nat -> (l < n)%nat -> 0 < resp Kin g pin fin j l -> 0 < fin' j l) ->
+  (forall j, (j < Kin)%nat -> comp_ll n (resp Kin g pin fin j) (fin j) <= comp_ll n (resp Kin g pin fin j) (fin' j)) ->
+  comp_ll n g (mix Kin pin fin) <= comp_ll n g (mix Kin pin' fin').
+Proof. intros n Kin g pin pin' fin fin'. exact (em_ascent_main n Kin g pin pin' fin fin'). Qed.
+
+(* hypotheses of (5.c) are satisfiable: the summary of 2, 2, 5 *)
+Example summary_hypotheses_satisfiable :
+  summ_values Nat.eqb [2; 2; 5]%nat = [2; 5]%nat /\ summ_index Nat.eqb [2; 2; 5]%nat = [0; 0; 1]%nat /\
+  summ_counts Nat.eqb [2; 2; 5]%nat = [2; 1]%nat /\ top_refuses (TMix false [NMix true [NLeaf]; NLeaf]) = true /\
+  top_refuses (TMix true [NMix false [NLeaf; NLeaf]]) = false /\ top_refuses (THmm [NMix true [NLeaf]]) = true.
+Proof. repeat split. Qed.
